@@ -110,7 +110,9 @@ func lockRemove(a, k string) string {
 	return strings.Join(out, ",")
 }
 
-func isQueryType(n string) bool { return n == "UnsafeQuery" || (strings.HasPrefix(n, "Query") && len(n) <= 7) }
+func isQueryType(n string) bool {
+	return n == "UnsafeQuery" || (strings.HasPrefix(n, "Query") && len(n) <= 7)
+}
 func isFilterType(n string) bool {
 	return n == "UnsafeFilter" || (strings.HasPrefix(n, "Filter") && len(n) <= 8)
 }
